@@ -293,10 +293,18 @@ def execute(sc, sched: Choices, cls, cfg):
             features["key_repr"] = info.get("repr", "?")
             features["fault"] = ctxf.fault_fired or "none"
             judge("fault_relaxed", rf, base, fired=ctxf.fault_fired)
+            ctxs = [ctxf]
+            rr = None
             if ctxf.fault_fired:
                 rec["faults"].append(ctxf.fault_fired)
-            ctxs = [ctxf]
-            results_digest.append((base, rf))
+                # the same call again (fresh grouping, no fault): nothing of the failed call may stick
+                # anywhere outside the object (module-level state, scratch buffers)
+                ctxr = executor.SimContext(sched=sched, workers=st["workers"], cpu_count=st["cpu"])
+                rr, _ = _execute(ds, lay, st, op, sort, ctxr)
+                judge("retry_after_fault", rr, base)
+                probes.add("retry_after_fault")
+                ctxs.append(ctxr)
+            results_digest.append((base, rf, rr))
         r = info.get("repr")
         if r == "chunked+pointers":
             probes.add("key_chunked_with_pointers")
